@@ -1,6 +1,7 @@
 import PGM.Generated.GraphicalModelQG
 import PGM.Proofs.GMQSynth
 import PGM.Proofs.GMQSynthTable
+import PGM.Proofs.GMQRng
 import PGM.Properties.C11B
 import PGM.Properties.C11
 /-!
@@ -89,7 +90,7 @@ theorem gen_col_sample (hr : RngOK cr cnr sh) (counts : List Rat) (total : Nat) 
   rw [gen_syntheticCol_sample]
   obtain ⟨h1, h2⟩ := hr.replace g counts.length total (counts.map (fun v => v / sumQ counts))
   refine ⟨h1, fun v hv => ?_⟩
-  obtain ⟨hlt, hpos⟩ := h2 v hv
+  obtain ⟨hlt, hpos⟩ := h2 (posCount_probas h) v hv
   refine ⟨hlt, ?_⟩
   rw [List.getD_eq_getElem?_getD, List.getElem?_map, List.getElem?_eq_getElem hlt] at hpos
   simp only [Option.map_some, Option.getD_some] at hpos
@@ -188,12 +189,25 @@ end table
 /-! ## the contracts are satisfiable: a deterministic generator, and the generated code computes -/
 section examples
 
-/-- a generator without state: the extras go to the FIRST `k` indices of positive probability, the shuffle is the identity -/
-def detNR (_ : Unit) (n k : Nat) (p : List Rat) : List Nat × Unit :=
-  ((((List.range n).filter (fun i => decide (0 < p.getD i 0))).take k), ())
-def detR (_ : Unit) (n k : Nat) (p : List Rat) : List Nat × Unit :=
-  (List.replicate k (((List.range n).filter (fun i => decide (0 < p.getD i 0))).headD 0), ())
-def detSh (_ : Unit) (l : List Nat) : List Nat × Unit := (l, ())
+/-- `RngOK` is satisfiable: the generator without state of `Proofs/GMQRng.lean` (the extras go to the FIRST `k` indices of positive
+probability, sampling repeats the first index of positive probability, the shuffle is the identity) -/
+example : RngOK detR detNR detSh := detRngOK
+
+/-- `CountsOK` is satisfiable -/
+theorem exCountsOK : CountsOK [1, 1, 2] := ⟨by decide, by decide +kernel⟩
+
+/-- … so the hypotheses of `gen_pickOK`, `gen_col_length`, `gen_col_in_domain`, `gen_col_round`, `gen_col_colOK`, `gen_col_sample` are -/
+example := gen_pickOK detR detNR detSh detRngOK [1, 1, 2] 5 () exCountsOK
+example := gen_col_length detR detNR detSh detRngOK "round" (by decide) [1, 1, 2] 5 () exCountsOK
+example := gen_col_in_domain detR detNR detSh detRngOK "round" (by decide) [1, 1, 2] 5 () exCountsOK
+example := gen_col_round detR detNR detSh detRngOK "round" (by decide) [1, 1, 2] 5 () exCountsOK 2 (by decide)
+example := gen_col_colOK detR detNR detSh detRngOK "round" (by decide) [1, 1, 2] 5 () exCountsOK
+example := gen_col_sample detR detNR detSh detRngOK [1, 1, 2] 5 () exCountsOK
+
+/-- … and of `gen_syntheticFrame_sample`: a two-attribute domain, elimination order (b, a), the group-by specification, any `project` -/
+example (project : List Attr → Factor Rat) :=
+  gen_syntheticFrame_sample project (fun s => s) groupbySpec detR detNR detSh detRngOK [("a", 2), ("b", 3)] [["a", "b"]] ["b", "a"] 7
+    none () groupbyOK_spec (by decide) (by decide) (by decide) (by decide) (fun s => List.Perm.refl s)
 
 /-- five records over `[1, 1, 2]`: targets `1.25, 1.25, 2.5`, floors `1, 1, 2`, one extra to the first positive fraction -/
 example : (GMQ.syntheticCol detR detNR detSh "round" [1, 1, 2] 5 ()).1 = [0, 0, 1, 2, 2] := by decide +kernel
